@@ -17,7 +17,9 @@ ASSUMPTIONS = ["oracles csscolor (exact blend on rationals) and wcag", "bound 1.
 MUST_OBSERVE = {"any": ["composite_judged", "label_judged", "fix_judged", "kind:rgba", "kind:hsla", "kind:rgba_tuple", "kind:rgba_list", "kind:rgb4", "kind:rgbslash", "kind:informal4"]}
 BLEND_TOL = 1.5 + 1e-6
 SIZES = {"quick": 12000, "thorough": 125000}
-ALPHAS = ["0", "1", "0.5", "0.001", "0.999", "0.9999999999999999", "1.0", "0.0", "0.25", "0.1"]
+ALPHAS = ["0", "1", "0.5", "0.001", "0.999", "0.9999999999999999", "1.0", "0.0", "0.25", "0.1",
+          # next to 0: as floats (RGBA tuples) these print in exponent notation
+          "0.00001", "0.00005", "0.00009", "0.0000001"]
 READ = {"AAA": "Very Readable", "AA": "Readable", "FAIL": "Not Readable"}
 
 
@@ -38,7 +40,7 @@ def grammar(shard, rec, lib):
             continue
         n += 1
         bgc = G.uniform(rnd)
-        bk, bg = rnd.choice(SP.available(bgc, ["hex6", "tuple", "rgb", "keyword", "list"]))
+        bk, bg = rnd.choice(SP.available(bgc, ["hex6", "tuple", "rgb", "keyword", "list", "frac_tuple", "hsl_tuple", "str_tuple", "pct_tuple", "float_tuple"]))
         ref = csscolor.parse(text)
         case = {"text": text, "tk": name, "bg": SP.jsonable(bg), "bk": bk, "fg": [str(c) for c in ref.rgb], "alpha": str(ref.alpha), "bgc": list(bgc), "large": False, "grammar": True}
         rec.ev()
@@ -101,7 +103,7 @@ def work(shard, rec):
                 continue
             bg_exact = csscolor.blend(bgc, Fraction(bga) if bk != "hsla" else Fraction(bga), (255, 255, 255))
         else:
-            bks = SP.available(bgc, ["hex6", "tuple", "rgb", "keyword", "HEX6", "list", "rgbpct", "hsl"])
+            bks = SP.available(bgc, ["hex6", "tuple", "rgb", "keyword", "HEX6", "list", "rgbpct", "hsl", "frac_tuple", "hsl_tuple", "str_tuple", "pct_tuple", "float_tuple", "informal3"])
             bk, bg = bks[rnd.randrange(len(bks))]
         large = rnd.random() < 0.3
         case = {"text": SP.jsonable(text), "tk": kind, "bg": SP.jsonable(bg), "bk": bk, "fg": list(fg), "alpha": a, "bgc": list(bgc), "bg_alpha": bga, "large": large}
